@@ -7,6 +7,7 @@ package pe
 // preserves them.
 
 import (
+	"encoding/base64"
 	"bytes"
 	"encoding/hex"
 	"encoding/json"
@@ -37,6 +38,9 @@ type emuConfig struct {
 	MCC         string `json:"mcc"`
 	MNC         string `json:"mnc"`
 	GnbID       string `json:"gnb_id"` // the octets, as a Go string
+	// GnbIDBin: when set, the gNB id in hexadecimal, written into the file as a !!binary scalar (the only YAML spelling
+	// for octets above 0x7f: "\x80" in a double-quoted scalar is the code point U+0080, two octets) - GnbID is unused then
+	GnbIDBin string `json:"gnb_id_binary_hex,omitempty"`
 	GnbBitLen   uint64 `json:"gnb_bitlength"`
 	GnbName     string `json:"gnb_name"`
 	K           string `json:"k"`
@@ -65,10 +69,22 @@ type fileSyntax struct {
 	Comments       bool  `json:"comments,omitempty"`         // comment lines and blank lines between the keys
 	Indent         int   `json:"indent,omitempty"`           // blanks in front of the keys (0: two)
 	DocStart       bool  `json:"document_start,omitempty"`   // "---" in front
+	// Extra: further keys in the "configuration" mapping that are NOT among the 24 documented ones (names an older
+	// README, another tool or a colleague's file uses): ignored, whatever they are called and whatever they hold
+	Extra [][2]string `json:"extra_keys,omitempty"`
 	// Kind: what kind of file system object ./config.yaml is: "" a regular file, "symlink" / "symlink-chain" a symbolic
 	// link (chain) to a regular file elsewhere (a mounted ConfigMap, a link into src/), "fifo" a named pipe fed in two
 	// writes by another process (a generated configuration)
 	Kind string `json:"file_kind,omitempty"`
+}
+
+// gnbOctets: the octets of the configured gNB id.
+func (c emuConfig) gnbOctets() []byte {
+	if c.GnbIDBin != "" {
+		b, _ := hex.DecodeString(c.GnbIDBin)
+		return b
+	}
+	return []byte(c.GnbID)
 }
 
 // yamlQuote writes a YAML double-quoted scalar; everything outside printable ASCII is escaped.
@@ -119,7 +135,11 @@ func (c emuConfig) YAML() string {
 	str("initial_imsi", c.InitialIMSI)
 	str("mcc", c.MCC)
 	str("mnc", c.MNC)
-	str("gnb_id", c.GnbID)
+	if c.GnbIDBin != "" {
+		lines = append(lines, fmt.Sprintf("%sgnb_id: !!binary %s", ind, base64.StdEncoding.EncodeToString(c.gnbOctets())))
+	} else {
+		str("gnb_id", c.GnbID)
+	}
 	num("gnb_bitlength", c.GnbBitLen)
 	str("gnb_name", c.GnbName)
 	str("k", c.K)
@@ -135,6 +155,7 @@ func (c emuConfig) YAML() string {
 	num("ue_service", c.Service)
 	num("ue_pdu_release", c.Release)
 	num("ue_deregistration", c.Dereg)
+	nDocumented := len(lines)
 	if o := c.Syntax.Order; len(o) == len(lines) {
 		seen := make([]bool, len(lines))
 		var perm []string
@@ -148,6 +169,12 @@ func (c emuConfig) YAML() string {
 			lines = perm
 		}
 	}
+	for i, kv := range c.Syntax.Extra {
+		l := fmt.Sprintf("%s%s: %s", ind, kv[0], yamlQuote(kv[1]))
+		at := (i*7 + len(kv[0])) % (len(lines) + 1)
+		lines = append(lines[:at], append([]string{l}, lines[at:]...)...)
+	}
+	_ = nDocumented
 	var out []string
 	if c.Syntax.DocStart {
 		out = append(out, "---")
@@ -262,7 +289,7 @@ type procOp struct {
 // procScript builds the L-proc equivalent of main's test mode for the given counts (what
 // main passes to each procedure, argument by argument).
 func (c emuConfig) procScript(k clamps) []procOp {
-	ops := []procOp{{Op: "ngsetup", GnbID: hex.EncodeToString([]byte(c.GnbID)), IMSI: c.InitialIMSI, MNC: c.MNC, BitLength: c.GnbBitLen, Name: c.GnbName}}
+	ops := []procOp{{Op: "ngsetup", GnbID: hex.EncodeToString(c.gnbOctets()), IMSI: c.InitialIMSI, MNC: c.MNC, BitLength: c.GnbBitLen, Name: c.GnbName}}
 	for i := 0; i < pos(k.R); i++ {
 		ops = append(ops, procOp{Op: "create", I: i, IMSI: c.InitialIMSI, K: c.K, OPC: c.OPC, OP: c.OP})
 		ops = append(ops, procOp{Op: "register", I: i, MNC: c.MNC, MCC: c.MCC})
@@ -393,6 +420,15 @@ func garble(f refamf.Fault, good, prev []byte) []byte {
 			n = len(full) - 1
 		}
 		return full[:n]
+	case "cause-ext-enum":
+		// a message of the expected class and procedure whose IE list announces two elements and holds one: a Cause
+		// (id 15) whose enumerated value has its extension bit set (a value of a later release) - a decoder stops there
+		// with "unsupported value", and nothing behind it was ever looked at
+		hd := []byte{0x00, 0x29, 0x00}
+		if len(good) >= 3 {
+			hd = append([]byte{}, good[:3]...)
+		}
+		return append(hd, 0x09, 0x00, 0x00, 0x02, 0x00, 0x0f, 0x40, 0x02, 0x10, 0x00)
 	case "stale-prefix":
 		src := prev
 		if len(src) < 4 {
